@@ -149,6 +149,9 @@ class Interp:
   # ------------------------------------------------------------------ symbolic rules
   def symbolic(self, prim, params, ins, eqn):
     name = prim.name
+    if name in ('uf', 'ufd'):
+      symx = next(x for x in ins if is_sym(x))
+      return _term.apply_uf(name, params, ins, symx.sp)
     if name in PASSTHROUGH:
       return ins[0] if not prim.multiple_results else list(ins)
     if name == 'convert_element_type':
@@ -159,6 +162,8 @@ class Interp:
       if isinstance(x, TermArr):
         return x.convert(nd)
       raise Unsupported('convert_element_type of polynomial to %s' % nd)
+    if name == 'zeros_like':
+      return np.zeros(ins[0].shape)
     if name in ('add', 'add_any'):
       return self._bin(ins, 'add')
     if name == 'sub':
